@@ -11,7 +11,8 @@
   * the relation is not loose: `declaresArg_unique` … `spec_determines` — two contents that satisfy it are EQUAL, so
     a builder that dropped a description, mis-read `@deprecated(reason:)`, lost a location or reordered members would
     falsify `declared_meets_spec`.
-  Defaults go through the shared coercion `CoercesTo` (= `valueFromAst`); roots through `declaredRoots`.
+  Defaults go through the shared coercion `CoercesTo` (= `valueFromAst`); roots: `declaredRoots_spec` (the fold of
+  `Roots.set` is the last binding of each operation; `DeclaresRoot`).
 -/
 import PyGqlModel.Spec.SdlDeclared
 import PyGqlModel.Props.C11_rules
@@ -134,6 +135,104 @@ theorem buildDirective_spec (env : Env) (d : DirDef) (r : DirectiveD) (h : build
   have := ok_inj h; subst this
   exact ⟨rfl, rfl, rfl, mapM_forall2 _ _ (buildArgument_spec env) _ _ hargs⟩
 
+/-! ### roots -/
+
+def RootOp (op : String) : Prop := op = "query" ∨ op = "mutation" ∨ op = "subscription"
+
+theorem get_set_eq (r : Roots) (op ty : String) (h : RootOp op) : (r.set op ty).get op = some ty := by
+  rcases h with rfl | rfl | rfl <;> rfl
+
+theorem lastBinding_cons (o : String × String) (os : List (String × String)) (op : String) :
+    lastBinding (o :: os) op = match lastBinding os op with | some ty => some ty | none => if o.1 == op then some o.2 else none := by
+  unfold lastBinding
+  rw [List.reverse_cons, List.find?_append]
+  cases h : os.reverse.find? (·.1 == op) with
+  | some x => simp
+  | none =>
+    simp only [Option.none_or, List.find?_cons, List.find?_nil, Option.map_none]
+    by_cases hc : (o.1 == op) = true
+    · simp [hc]
+    · simp [hc]
+
+theorem foldSet_get (op : String) (h : RootOp op) : ∀ (ops : List (String × String)) (r0 : Roots),
+    (ops.foldl (fun r (o : String × String) => r.set o.1 o.2) r0).get op =
+      match lastBinding ops op with | some ty => some ty | none => r0.get op := by
+  intro ops
+  induction ops with
+  | nil => intro r0; rfl
+  | cons o os ih =>
+    intro r0
+    rw [List.foldl_cons, ih, lastBinding_cons]
+    cases lastBinding os op with
+    | some ty => rfl
+    | none =>
+      simp only []
+      by_cases hc : (o.1 == op) = true
+      · have : o.1 = op := by simpa using hc
+        simp only [hc, if_true]; rw [this, get_set_eq _ _ _ h]
+      · have hne : op ≠ o.1 := fun e => hc (by simp [e])
+        simp only [hc]; exact get_set_ne _ _ _ _ hne
+
+theorem foldBlocks_flat (f : Roots → String × String → Roots) : ∀ (blocks : List SchemaDef) (r0 : Roots),
+    blocks.foldl (fun r se => se.ops.foldl f r) r0 = (blocks.flatMap (·.ops)).foldl f r0 := by
+  intro blocks
+  induction blocks with
+  | nil => intro _; rfl
+  | cons b bs ih => intro r0; rw [List.foldl_cons, ih, List.flatMap_cons, List.foldl_append]
+
+theorem setFun_eq : (fun (r : Roots) (x : String × String) => match x with | (op, ty) => r.set op ty) = (fun r o => r.set o.1 o.2) := by
+  funext r x; cases x; rfl
+
+theorem declaredRoots_get (doc : Doc) (types : List TypeD) (op : String) (h : RootOp op) :
+    (declaredRoots doc types).get op = match lastBinding (declaredOps doc) op with
+      | some ty => some ty
+      | none => match schemaDefs doc with | _ :: _ => none | [] => (defaultRoots types).get op := by
+  unfold declaredRoots declaredOps
+  simp only []
+  rw [setFun_eq, foldBlocks_flat]
+  cases hs : schemaDefs doc with
+  | nil =>
+    simp only [List.nil_append]
+    rw [foldSet_get op h]
+  | cons sd rest =>
+    simp only []
+    rw [← List.foldl_append, foldSet_get op h]
+    cases lastBinding (sd.ops ++ (schemaExtensions doc).flatMap (·.ops)) op with
+    | some ty => rfl
+    | none => rcases h with rfl | rfl | rfl <;> rfl
+
+theorem pick_spec (types : List TypeD) (dflt : String) (r : Option String)
+    (hr : r = if types.any (fun t => t.name == dflt && t.kind == .object) then some dflt else none) :
+    ((∃ t ∈ types, t.name = dflt ∧ t.kind = .object) → r = some dflt) ∧
+    ((¬ ∃ t ∈ types, t.name = dflt ∧ t.kind = .object) → r = none) := by
+  have hiff : types.any (fun t => t.name == dflt && t.kind == .object) = true ↔ ∃ t ∈ types, t.name = dflt ∧ t.kind = .object := by
+    simp [List.any_eq_true]
+  constructor
+  · intro h; rw [hr, if_pos (hiff.mpr h)]
+  · intro h; rw [hr, if_neg (fun c => h (hiff.mp c))]
+
+theorem declaresRoot_of_get (doc : Doc) (types : List TypeD) (op dflt : String) (h : RootOp op)
+    (hd : (defaultRoots types).get op = if types.any (fun t => t.name == dflt && t.kind == .object) then some dflt else none) :
+    DeclaresRoot doc types op dflt ((declaredRoots doc types).get op) := by
+  unfold DeclaresRoot
+  rw [declaredRoots_get doc types op h]
+  cases lastBinding (declaredOps doc) op with
+  | some ty => rfl
+  | none =>
+    simp only []
+    cases hs : schemaDefs doc with
+    | nil => exact pick_spec types dflt _ hd
+    | cons _ _ => rfl
+
+/-- **the roots of the declared content, declaratively** -/
+theorem declaredRoots_spec (doc : Doc) (types : List TypeD) :
+    DeclaresRoot doc types "query" "Query" (declaredRoots doc types).query ∧
+    DeclaresRoot doc types "mutation" "Mutation" (declaredRoots doc types).mutation ∧
+    DeclaresRoot doc types "subscription" "Subscription" (declaredRoots doc types).subscription :=
+  ⟨declaresRoot_of_get doc types "query" "Query" (Or.inl rfl) rfl,
+   declaresRoot_of_get doc types "mutation" "Mutation" (Or.inr (Or.inl rfl)) rfl,
+   declaresRoot_of_get doc types "subscription" "Subscription" (Or.inr (Or.inr rfl)) rfl⟩
+
 /-! ### the declared content -/
 
 /-- **`Declared` meets the independent specification**: every registered type / directive is, attribute by attribute,
@@ -150,7 +249,8 @@ theorem declared_meets_spec (doc : Doc) (c : SchemaD) (h : Declared doc = some c
       rw [h1, h2] at h
       simp only [Option.some.injEq] at h
       subst h
-      exact ⟨mapM_forall2 _ _ (buildTypeDef_spec _) _ _ h1, mapM_forall2 _ _ (buildDirective_spec _) _ _ h2, rfl, rfl, rfl, rfl⟩
+      obtain ⟨rq, rm, rs⟩ := declaredRoots_spec doc ts
+      exact ⟨mapM_forall2 _ _ (buildTypeDef_spec _) _ _ h1, mapM_forall2 _ _ (buildDirective_spec _) _ _ h2, rq, rm, rs, rfl⟩
 
 /-- **build_exact against the independent specification**: a document that satisfies `SdlOK` builds, and what is built
     is, attribute by attribute, the content the document declares. -/
@@ -242,6 +342,22 @@ theorem declaresDirective_unique (env : Env) (d : DirDef) (r r' : DirectiveD) (h
   simp only [] at n l ds n' l' ds' ha
   exact ⟨n.trans n'.symm, l.trans l'.symm, ha, ds.trans ds'.symm⟩
 
+theorem declaresRoot_unique (doc : Doc) (types : List TypeD) (op dflt : String) (r r' : Option String)
+    (h : DeclaresRoot doc types op dflt r) (h' : DeclaresRoot doc types op dflt r') : r = r' := by
+  unfold DeclaresRoot at h h'
+  cases hl : lastBinding (declaredOps doc) op with
+  | some ty => rw [hl] at h h'; exact h.trans h'.symm
+  | none =>
+    rw [hl] at h h'
+    simp only [] at h h'
+    cases hs : schemaDefs doc with
+    | cons _ _ => rw [hs] at h h'; exact h.trans h'.symm
+    | nil =>
+      rw [hs] at h h'
+      by_cases c : ∃ t ∈ types, t.name = dflt ∧ t.kind = .object
+      · exact (h.1 c).trans (h'.1 c).symm
+      · exact (h.2 c).trans (h'.2 c).symm
+
 /-- **the specification determines the content**: two schema descriptions that satisfy `DeclaredSpec doc` are equal.
     With `declared_meets_spec`: `DeclaredSpec doc c ↔ Declared doc = some c` whenever the document declares anything. -/
 theorem spec_determines (doc : Doc) (c c' : SchemaD) (h : DeclaredSpec doc c) (h' : DeclaredSpec doc c') : c = c' := by
@@ -253,7 +369,7 @@ theorem spec_determines (doc : Doc) (c c' : SchemaD) (h : DeclaredSpec doc c) (h
   simp only [SchemaD.mk.injEq]
   simp only [] at q m s r q' m' s' r' ht hd
   subst ht
-  exact ⟨rfl, hd, q.trans q'.symm, m.trans m'.symm, s.trans s'.symm, r.trans r'.symm⟩
+  exact ⟨rfl, hd, declaresRoot_unique _ _ _ _ _ _ q q', declaresRoot_unique _ _ _ _ _ _ m m', declaresRoot_unique _ _ _ _ _ _ s s', r.trans r'.symm⟩
 
 /-- the specification is equivalent to the computed `Declared` on every document that declares something -/
 theorem declaredSpec_iff (doc : Doc) (c₀ : SchemaD) (h₀ : Declared doc = some c₀) (c : SchemaD) : DeclaredSpec doc c ↔ Declared doc = some c :=
